@@ -57,6 +57,8 @@ def pool(variant, maxlen):
              ("2020-01-01T00:00:00", "dateTime"), ("2020-01-01T00:00:00Z", "dateTime"), ("2020-01-01T00:00:00+00:00", "dateTime"), ("2020-13-45", "date"), ("P1D", "duration"), ("PT24H", "duration"),
              ("AQID", "base64Binary"), ("0a", "hexBinary"), ("0A", "hexBinary"), ("x", "anyURI")]
     T += [lit(v, dt=XSD + d) for v, d in typed]
+    # ill-typed numeric literals whose text contains the letters of inf / nan
+    T += [lit("banana", dt=XSD + "double"), lit("finance", dt=XSD + "decimal"), lit("infinite", dt=XSD + "float"), lit("Infinity war", dt=XSD + "double"), lit("nan", dt=XSD + "integer")]
     # multi-line literals ending in / containing quotes (the long-quote n3 form)
     T += [lit('a\nb"'), lit('line one\nline two"', lang="en"), lit('a\nb"', dt="http://ex.example/dt"), lit('a\nb""'), lit('\n"'), lit('a\nb"""'), lit("a\nb\\"), lit('"\n'), lit("a\nb'"),
           lit("''" + "'\n"), lit('a\r"')]
